@@ -24,8 +24,7 @@ def design_mc(ctx):
     if not os.path.exists("/verif/specs/MC_PedMECDP.tla"):
         return []
     cfg = tlc.write_cfg(os.path.join(ctx.workdir, "dp.cfg"), spec="Spec",
-                        consts={"MaxReads": 3, "MaxCols": 3 if q else 3, "Weights": "{1, 2}", "RCs": "{0, 1}" if q else "{0, 1, 3}",
-                                "Sample": 40 if q else 10},
+                        consts={"Sample": 150 if q else 5},
                         invariants=["ProjIsPrefixOpt", "FinalIsOpt", "WitnessOK"])
     r = tlc.model_check("MC_PedMECDP", cfg=cfg, timeout=3000)
     r["what"] = "PedMECDP (column DP with forward projection, as in pedigreedptable.cpp) computes PedMEC!OptCost and a witness"
